@@ -191,6 +191,14 @@ def fam_slice_hi(k):
     return {"main.asm": "#d8 (0xab[%d:0])[7:0]\n" % n}, ("either", "%02x" % (0xab if n >= 7 else 0xab & ((1 << (n + 1)) - 1)))
 
 
+def fam_slice_top(k):
+    # a narrow slice whose upper index is 2^k - 1 (for k = 64 the largest machine word: hi + 1 does not fit), as an
+    # unsized data element, so that the static size analysis sees it too
+    n = pow2(k) - 1
+    lo = max(0, n - 15)
+    return {"main.asm": "#d (0xab)[%d:%d]\n#d8 0x5a\n" % (n, lo)}, ("either", None)
+
+
 def fam_slice_both(k):
     n = pow2(k)
     return {"main.asm": "#d8 0xab[%d:%d]\n" % (n + 7, n)}, ("either", "ab" if n == 0 else "00" if n >= 8 else "%02x" % ((0xab >> n) & 0xff))
@@ -357,6 +365,7 @@ FAMILIES = {
     "shift-right": (fam_shr, POW_Q, POW_T),
     "slice-high-bound": (fam_slice_hi, POW_Q, POW_T),
     "slice-both-bounds": (fam_slice_both, POW_Q, POW_T),
+    "slice-top-index-minus-1": (fam_slice_top, POW_Q, POW_T),
     "short-slice-size": (fam_sshort, POW_Q, POW_T),
     "data-width-suffix": (fam_data_width, POW_Q, POW_T),
     "type-width-suffix": (fam_type_width, POW_Q, POW_T),
